@@ -1187,3 +1187,52 @@ func TestScenarioC19_EndlessLineIsCutOff(t *testing.T) {
 		s.Close()
 	}
 }
+
+// TestScenarioC19_FloodFromPeerThatStopsReading (seed C19N): a peer that sends junk commands and never reads a
+// reply, on a server with a WriteTimeout. The replies cannot be delivered, but the errors still count: after more
+// than three of them the connection is closed - the flood does not go on for as long as the peer likes.
+func TestScenarioC19_FloodFromPeerThatStopsReading(t *testing.T) {
+	for _, lmtp := range []bool{false, true} {
+		be := &mcBackend{got: map[string]string{}, errs: map[string]error{}}
+		s := smtp.NewServer(be)
+		s.Domain = "verif"
+		s.LMTP = lmtp
+		s.WriteTimeout = 150 * time.Millisecond
+		s.ReadTimeout = 10 * time.Second
+		s.ErrorLog = log.New(io.Discard, "", 0)
+		a, b := net.Pipe() // synchronous: a reply nobody reads blocks the server's write until its deadline
+		l := &pipeListener{conn: b, done: make(chan struct{})}
+		go s.Serve(l)
+		// read the greeting, then never again
+		buf := make([]byte, 512)
+		a.SetReadDeadline(time.Now().Add(3 * time.Second))
+		if _, err := a.Read(buf); err != nil {
+			t.Fatalf("no greeting: %v", err)
+		}
+		a.SetReadDeadline(time.Time{})
+		start := time.Now()
+		sent, closed := 0, false
+		for time.Since(start) < 6*time.Second {
+			a.SetWriteDeadline(time.Now().Add(500 * time.Millisecond))
+			if _, err := a.Write([]byte("XJUNK not a command\r\n")); err != nil {
+				if ne, ok := err.(net.Error); ok && ne.Timeout() {
+					continue // the server is busy failing to write: try again
+				}
+				closed = true
+				break
+			}
+			sent++
+		}
+		if !closed {
+			t.Errorf("lmtp=%v: the server took %d junk commands over %v from a peer that reads nothing and still keeps the connection", lmtp, sent, time.Since(start).Round(time.Millisecond))
+		}
+		a.Close()
+		cdone := make(chan struct{})
+		go func() { s.Close(); close(cdone) }()
+		select {
+		case <-cdone:
+		case <-time.After(5 * time.Second):
+			t.Errorf("lmtp=%v: Server.Close does not return", lmtp)
+		}
+	}
+}
